@@ -122,7 +122,7 @@ pub fn run(tier: Tier, seed: u64) -> i32 {
         Tier::Quick => vec![(2, 2), (3, 1)],
         Tier::Thorough => vec![(3, 3)],
     };
-    let hist = [History::Plain, History::Replaced, History::Reversed];
+    let hist = [History::Plain, History::Replaced, History::Reversed, History::ExtraBroken];
     for (il, dl) in parts {
         let ni = seq_total(IMPORTS.len(), il);
         let nd = seq_total(DECLS.len(), dl);
@@ -142,7 +142,7 @@ pub fn run(tier: Tier, seed: u64) -> i32 {
                 if il == 3 && dl == 1 && imports.len() < 3 && tier == Tier::Quick {
                     return None;
                 }
-                let h = if (ii + di) % 11 == 0 { hist[(ii + di / 11) % 3] } else { History::Plain };
+                let h = if (ii + di) % 7 == 0 { hist[((ii + di) / 7) % 4] } else { History::Plain };
                 stats.nontrivial(fnv(&format!("{imports:?}{decls:?}{body}{ctx}")));
                 let c = make_case(&imports, &decls, body, ctx, h);
                 if i % 3001 == 0 {
